@@ -92,6 +92,8 @@ Definition ok (c : case) : bool :=
       | None, None => true
       | Some e, Some (ast, pr) =>
           (if exact then expr_eqb e ast else true) &&
+          (* the model parser's own result satisfies the well-formedness premise (image of the parser) *)
+          (if exact then wf rx e else true) &&
           (match pr with Some p => if exact then String.eqb (print false ast) p else true | None => true end) &&
           (* the repaired printer on the implementation's tree: lexes to [toks] and parses back to [norm] *)
           (* the implementation's tree satisfies the well-formedness premise of the round-trip theorem *)
